@@ -20,6 +20,7 @@ def check(ctx):
     repo = ctx.repo
     docs = require_labels(ADAPTIVE_LABELS)
     ctx.note("specification", {k: v[:200] for k, v in docs.items()})
+    ctx.rule("R12.6", "the library never rewrites the user's options (adaptive, dt_init, dt_max, multiplier, retries ...): the step rule runs with the settings given", 1)
     ctx.rule("R12.1", "proposed step == clip(1/2 (dt + dt_init / max(1e-10, mean(last `window` values))), 0, dt_max) under "
                       "adaptive and step > window; one history value max|abs_sq_psi - old_sq_psi| per update", 3)
     ctx.rule("R12.2", "with adaptive off the tentative step is never reassigned and dt_max == dt_init", 2)
@@ -135,6 +136,9 @@ def check(ctx):
     ctx.ob("R12.2", "dt_max = options.dt_max if adaptive else options.dt_init; tentative_dt starts at dt_init", ok,
            detail={"dt_max": dm, "tentative_dt": td}, where=fi.fq, construct="self.dt_max / self.tentative_dt",
            message=f"dt_max = {dm}, tentative_dt = {td}", consequence="the first step or the cap differs from the documented values")
+    from ..effects import options_readonly
+    options_readonly(ctx, "R12.6", "the run silently uses other step settings than the ones configured (e.g. adaptive switched off when dt_init == dt_max: "
+                                   "a refused update then raises at once instead of being retried with dt * multiplier)")
     retry_loop(ctx)
     step_reported(ctx, fu)
     # ---- R12.5 -----------------------------------------------------------------------------
